@@ -156,10 +156,11 @@ func (c *wsConn) nextWriter(epoch uint64, cb func(io.Writer)) {
 	c.writeLk.Lock()
 	defer c.writeLk.Unlock()
 	if atomic.LoadUint64(&c.connEpoch) != epoch {
+		vhook("w.stale", c, "epoch", epoch)
 		cb(io.Discard)
 		return
 	}
-	vhook("w.begin", c, "site", "nextWriter")
+	vhook("w.begin", c, "site", "nextWriter", "epoch", epoch)
 	defer vhook("w.end", c, "site", "nextWriter")
 
 	wcl, err := c.conn.NextWriter(websocket.TextMessage)
@@ -567,7 +568,7 @@ func (c *wsConn) handleCall(ctx context.Context, frame frame) {
 		done = func(keepctx bool) {
 			c.handlingLk.Lock()
 			defer c.handlingLk.Unlock()
-			vhook("h.done", c, "id", frame.ID, "keep", keepctx)
+			vhook("h.done", c, "id", frame.ID, "keep", keepctx, "epoch", epoch)
 
 			if !keepctx {
 				cancel()
@@ -582,7 +583,7 @@ func (c *wsConn) handleCall(ctx context.Context, frame frame) {
 		return c.handleChanOut(epoch, ch, id)
 	}
 
-	vhook("fe.call", c, "id", frame.ID, "method", frame.Method, "params", string(frame.Params))
+	vhook("fe.call", c, "id", frame.ID, "method", frame.Method, "params", string(frame.Params), "epoch", epoch)
 	go c.handler.handle(ctx, req, nextWriter, rpcError, done, chOut)
 }
 
